@@ -1576,6 +1576,16 @@ func runC20(r *Run) {
 		{Op: "reg", Type: "IDs", K: k1}, {Op: "regschema", Type: "IDs"}, {Op: "regschema", Type: "IDs", Variant: "alt"},
 		{Op: "reg", Type: "Pair", K: k1}, {Op: "regschema", Type: "Pair", Variant: "alt"},
 		run([]string{"C20A", "C20B", "C20OnlyCents", "C20In", "Pair", "C20Plain"})}, false)
+	// the two registries are independent: a builder registered after a schema (and replaced again
+	// later) leaves the registered schema in force — shown with schemas that differ from what the
+	// types would get on their own
+	p.scenario("schema-then-codec", []c20Step{
+		{Op: "regschema", Type: "Cents", Variant: "alt"}, {Op: "regschema", Type: "Tag", Variant: "nullfirst"},
+		{Op: "regschema", Type: "IDs", Variant: "alt"}, {Op: "regschema", Type: "Pair", Variant: "alt"},
+		{Op: "reg", Type: "Cents", K: k1}, {Op: "reg", Type: "Tag", K: k1}, {Op: "reg", Type: "IDs", K: k1}, {Op: "reg", Type: "Pair", K: k1},
+		run(c20AllContainers),
+		{Op: "reg", Type: "Cents", K: k2}, {Op: "reg", Type: "Pair", K: k2},
+		run(c20AllContainers), fresh(c20AllContainers)}, false)
 	// a codec registered without a schema, a schema registered without a codec
 	p.scenario("codec-without-schema", []c20Step{
 		{Op: "reg", Type: "Cents", K: k2}, {Op: "reg", Type: "Tag", K: k2}, {Op: "reg", Type: "Pair", K: k2}, {Op: "reg", Type: "IDs", K: k2},
